@@ -179,27 +179,32 @@ Reject(what) ==
   /\ PrintT(<<"REJECT", l, Rec[l].ev, what, 0, 0>>)
   /\ rejected' = TRUE /\ UNCHANGED <<l, cur, aborted, widx, ref, refOf, judged, stk, hd>>
 
+\* ref = line of the "search" event of the uninterrupted run of the current group (its cache writes are the
+\* lines ref+1 .. ref+Rec[ref].nev: an uninterrupted run records nothing but writes); kept as a line number
+\* so that the state stays small however long the search is.
+IsUninterrupted(r) == r.budget = -1 /\ r.movetime = -1 /\ r.stop_us = -1 /\ r.clock = -1
+
 TSearch ==
   /\ Rec[l].ev = "search"
   /\ IF Rec[l].panicked THEN Reject({"panicked"})
      ELSE /\ cur' = Rec[l] /\ aborted' = FALSE /\ widx' = 0
-          /\ ref' = IF Rec[l].group = refOf THEN ref ELSE <<>>      \* a new group starts with its uninterrupted run
+          /\ ref' = IF IsUninterrupted(Rec[l]) THEN l ELSE IF Rec[l].group = refOf THEN ref ELSE 0
           /\ refOf' = Rec[l].group
           /\ l' = l + 1 /\ UNCHANGED <<judged, rejected, stk, hd>>
 
-Uninterrupted == cur.budget = -1 /\ cur.movetime = -1 /\ cur.stop_us = -1 /\ cur.clock = -1
+Uninterrupted == IsUninterrupted(cur)
 
 TWrite ==
   /\ Rec[l].ev = "ttwrite"
   /\ LET r == Rec[l]
+         inRef == ref # 0 /\ widx + 1 <= Rec[ref].nev /\ Rec[ref + widx + 1].ev = "ttwrite"
          f == (IF aborted THEN {"write-after-abort"} ELSE {})
-              \cup (IF ~Uninterrupted /\ ~aborted /\ (widx + 1 > Len(ref) \/ ref[widx + 1] # WriteOf(r))
+              \cup (IF ~Uninterrupted /\ ~aborted /\ ~(inRef /\ WriteOf(Rec[ref + widx + 1]) = WriteOf(r))
                     THEN {"not-a-prefix-of-the-uninterrupted-search"} ELSE {}) IN
      IF f # {} THEN Reject(f)
      ELSE /\ widx' = widx + 1
-          /\ ref' = IF Uninterrupted THEN Append(ref, WriteOf(r)) ELSE ref
           /\ judged' = judged + 1
-          /\ l' = l + 1 /\ UNCHANGED <<cur, aborted, refOf, rejected, stk, hd>>
+          /\ l' = l + 1 /\ UNCHANGED <<cur, aborted, ref, refOf, rejected, stk, hd>>
 
 TAbort ==
   /\ Rec[l].ev = "abort"
@@ -243,8 +248,8 @@ TDone ==
   /\ l' = l + 1 /\ UNCHANGED <<cur, aborted, widx, ref, refOf, judged, rejected, stk, hd>>
 
 Init ==
-  /\ l = 1 /\ cur = [budget |-> -1, movetime |-> -1, stop_us |-> -1, clock |-> -1] /\ aborted = FALSE /\ widx = 0
-  /\ ref = <<>> /\ refOf = -1 /\ judged = 0 /\ rejected = FALSE /\ stk = <<>> /\ hd = 0
+  /\ l = 1 /\ cur = [budget |-> -1, movetime |-> -1, stop_us |-> -1, clock |-> -1, nev |-> 0] /\ aborted = FALSE /\ widx = 0
+  /\ ref = 0 /\ refOf = -1 /\ judged = 0 /\ rejected = FALSE /\ stk = <<>> /\ hd = 0
   /\ Stateless
 
 Next ==
